@@ -517,6 +517,14 @@ pub fn builtin_binary_get<E: Effect>(
                     let bit_offset = bit_offset as usize;
                     let num_bits = num_bits as usize;
 
+                    // Reject an offset past the end up front, so `byte_offset * 8` cannot overflow.
+                    if byte_offset > binary_data.len() {
+                        return Err(Error::InvalidArgument(format!(
+                            "Not enough bits: need {} bits starting at byte {} bit {}",
+                            num_bits, byte_offset, bit_offset
+                        )));
+                    }
+
                     // Calculate which bytes we need to read
                     let total_bit_start = byte_offset * 8 + bit_offset;
                     let total_bit_end = total_bit_start + num_bits;
@@ -529,13 +537,14 @@ pub fn builtin_binary_get<E: Effect>(
                         )));
                     }
 
-                    // Read all bytes we need
-                    let mut value = 0u64;
+                    // Read all bytes we need. An unaligned field of more than 56 bits spans nine
+                    // bytes, so accumulate in 128 bits.
+                    let mut value = 0u128;
                     let bytes_to_read = last_byte_needed - byte_offset;
 
                     for i in 0..bytes_to_read {
                         value =
-                            (value << 8) | (binary_data.byte_at(byte_offset + i).unwrap() as u64);
+                            (value << 8) | (binary_data.byte_at(byte_offset + i).unwrap() as u128);
                     }
 
                     // Shift to align our bits to the right
@@ -545,14 +554,12 @@ pub fn builtin_binary_get<E: Effect>(
                     value >>= bits_after;
 
                     // Mask to keep only the bits we want
-                    let mask = if num_bits == 64 {
-                        u64::MAX
-                    } else {
-                        (1u64 << num_bits) - 1
-                    };
+                    let mask = (1u128 << num_bits) - 1;
                     value &= mask;
 
-                    Ok(BuiltinResult::Value(Value::Integer(BigInt::from(value))))
+                    Ok(BuiltinResult::Value(Value::Integer(BigInt::from(
+                        value as u64,
+                    ))))
                 }
                 _ => Err(Error::TypeMismatch {
                     expected: "[binary, integer, integer, integer]".to_string(),
@@ -620,6 +627,14 @@ pub fn builtin_binary_set<E: Effect>(
                     let num_bits = num_bits as usize;
                     let len = binary_data.len();
 
+                    // Reject an offset past the end up front, so `byte_offset * 8` cannot overflow.
+                    if byte_offset > len {
+                        return Err(Error::InvalidArgument(format!(
+                            "Not enough bits: need {} bits starting at byte {} bit {}",
+                            num_bits, byte_offset, bit_offset
+                        )));
+                    }
+
                     // Calculate which bytes we need to modify
                     let total_bit_start = byte_offset * 8 + bit_offset;
                     let total_bit_end = total_bit_start + num_bits;
@@ -661,21 +676,18 @@ pub fn builtin_binary_set<E: Effect>(
                     let bits_in_modified = bytes_to_modify * 8;
                     let bits_after = bits_in_modified - bit_offset - num_bits;
 
-                    // Shift value to correct position
-                    let shifted_value = value_u64 << bits_after;
+                    // Shift value to correct position. An unaligned field of more than 56 bits
+                    // spans nine bytes, so work in 128 bits.
+                    let shifted_value = (value_u64 as u128) << bits_after;
 
                     // Create mask: all 1s except in our target bits
-                    let mask = if num_bits == 64 {
-                        0
-                    } else {
-                        let target_mask = ((1u64 << num_bits) - 1) << bits_after;
-                        !target_mask
-                    };
+                    let target_mask = ((1u128 << num_bits) - 1) << bits_after;
+                    let mask = !target_mask;
 
                     // Reconstruct the bytes
-                    let mut current_bytes = 0u64;
+                    let mut current_bytes = 0u128;
                     for &byte in &modified_bytes {
-                        current_bytes = (current_bytes << 8) | (byte as u64);
+                        current_bytes = (current_bytes << 8) | (byte as u128);
                     }
 
                     let new_bytes_value = (current_bytes & mask) | shifted_value;
